@@ -394,7 +394,7 @@ def stmt(s):
         return [kw("continue")]
     if k == "return":
         if s[1] is None:
-            return [kw("return"), ident("NULL")]
+            return [kw("return")]     # value-less; a ; or a terminator follows
         return [kw("return")] + expr(s[1], 0)
     if k == "error":
         return [kw("error")] + expr(s[1], 0)
